@@ -75,6 +75,60 @@ CHECKS['C05'] = (
     'duplicated runs, wrong order, updates applied too late/early within a phase and phases at the wrong moment are detected for every generated flow.',
     'Trusts vv/ref/layers.py. Order between derivers of the two dictionaries not asserted; ".." flow dependencies rejected at construction are counted, not flagged. <=7 flow steps, <=4 derivers, depth <=2.')
 
+CHECKS['C06'] = (
+    'hierarchy-first Hypothesis generator (target tree first, ports/topologies derived, wiring map W recorded) with a construction-time ground-truth oracle: read == W-node value, write == W-node + increment, frame condition',
+    'Generated search over plain/".."/_path-split/renamed/leaf/glob/sub-topology/aliased/output ports placed at any depth; the oracle is the '
+    'generator\'s own bookkeeping and never calls inverse_topology/schema_topology/normalize_path, so read/write asymmetries and lost or misplaced '
+    'updates are detected for every generated topology.',
+    'Detours only through nodes known to exist; glob children with sub-topology provisioned by a declaring process; depth <=4, <=3 processes x <=3 ports.')
+CHECKS['C07'] = (
+    'Hypothesis-generated wirings and model-based structural histories; differential oracle: states argument vs. independent projection of engine.state.get_value() taken in the same callback',
+    'Every calculate_timestep/update_condition/next_update call of every observed process is compared for exact shape and values with a '
+    'projection of the live hierarchy through the generator\'s wiring map, statically (masking, output ports, globs) and across generated '
+    '_add/_delete/_move/_generate/_divide histories with viewers of different timesteps.',
+    'Projection trusts Store.get_value() for raw values. Histories <=6 batches, <=3 viewers.')
+CHECKS['C09'] = (
+    'model-based stateful generation (reference dict-tree threaded through a composite Hypothesis strategy) compared with the real hierarchy after every batch, plus Store-identity frame condition',
+    'Generated histories of structural operations (all five kinds, combined batches, nested targets, operator as process or step) are '
+    'executed on a real Engine; values, process/step placement and node identities are compared with an independent reference after every batch.',
+    'Trusts vv/ref/tree.py. Fresh keys; default dividers; residents do not change values. Known finding F09a (tuple-path _delete) excluded by signature, generated only in the last batch.')
+CHECKS['C10'] = (
+    'model-based structural histories with running residents; history invariants over an identity-tagged event log, published-composite == hierarchy equality after every batch, rebuilt-engine continuation (differential)',
+    'Generated histories with resident processes/steps of drawn timesteps (updates in flight at structural changes), run unforced; checks that '
+    'only instances living in the hierarchy run, steps exactly once per phase, processes on contiguous intervals from creation, published '
+    'processes/steps/flow/topology (and the source Composite) equal the hierarchy, and a second engine rebuilt from the published composite continues identically.',
+    'Fate of an in-flight update of a removed/moved process not asserted. Operator is a process. <=6 batches.')
+CHECKS['C11'] = (
+    'Hypothesis-generated mother states x divider assignments x division triggers; per-divider conservation laws (valid for every random outcome) and an independence (non-interference) check over later ticks',
+    'Generated search over values in each divider\'s domain (incl. large ints, non-dyadic floats, quantities, inf, branch-level and '
+    'topology/config dividers), explicit overrides, 1..3 generations and four trigger routes; laws relate the mother just before to the daughters '
+    'just after the dividing batch; then only flagged cells are updated and every other cell must stay deep-equal.',
+    'Negative counts not generated; non-dyadic halves at rel 1e-15; RNG seeded from the spec.')
+CHECKS['C12'] = (
+    'Hypothesis-generated emit-flag assignments/store_schema overrides/units/serializers/emit_step and structural histories; oracle: each emitted row == flag projection of the snapshot taken in the same emit callback, time-key laws, subset relation between emit_step runs (metamorphic)',
+    'A recording emitter captures every emit together with a snapshot of the hierarchy; rows are compared with the projection through flags '
+    'computed by the generator; row times are compared with the times at which updates were applied; emit_step>1 runs are compared with the '
+    'emit_step=1 run of the same spec.',
+    'Rows compared on leaves; duplicates/sparse subsets tolerated for emit_step>1; pint str() trusted for the expected quantity strings.')
+CHECKS['C15'] = (
+    'hierarchy-first Hypothesis generator with per-node defaults and a partial initial state; construction-time ground truth (initial else declared default), conflict class must raise, Composite.initial_state/default_state placement',
+    'Generated search over wirings, default assignments among several declarers, partial initial states and three construction routes; '
+    'the oracle is the generator\'s wiring map; a negative class with conflicting _value/_units/_serializer must raise at construction.',
+    'Differing _default values are not a conflict (any declared default accepted). Undeclared initial-state content is counted, not flagged.')
+CHECKS['C16'] = (
+    'Hypothesis-generated composers, embedding paths, merge sequences and overrides; structural equality vs. reference nest/union, snapshot invariance of merged-in composites, differential trajectories across the three engine entry points and root vs. embedded runs',
+    'Generated search over merge sequences (same template merged repeatedly, further material merged later) with re-checks of every earlier '
+    'merged-in composite after every later merge; embedded vs root and composite/parts/store engines are run and their trajectories compared.',
+    'Processes compared by identity within a composite and by (class, name, parameters) across generate() calls.')
+
+CHECKS['C13'] = (
+    'differential testing: every generated schedule / structural history is built twice (serial, and with a drawn subset marked _parallel) and compared; plus shutdown-plan fault enumeration (end once/twice/with commands pending/never) with OS-level liveness checks of the workers',
+    'Generated search over subsets of parallel processes/steps x schedules x structural histories (parallel compartments deleted, moved, '
+    'generated, divided while idle, due in the same batch or in flight) x shutdown plans; trajectories, final state and published composite must '
+    'be identical to the serial run, no exception may occur, and after shutdown no worker OS process may be alive.',
+    'The harness owns the schedule (single-threaded engine, synchronous workers); crashes/signals inside a worker are outside the technique. '
+    'Division by copying a mother holding a ParallelProcess is not generated. ~30 cases per shard in the quick tier.')
+
 NOT_YET = 'check not built yet in this session (planned, see DESIGN.md section 8)'
 
 
